@@ -23,15 +23,29 @@ virtual-time loop.  Nothing of taskiq / taskiq_dependencies is re-implemented; w
 Messages may carry no labels at all (`nolabels`), tasks may be declared with labels (`labels` of a task spec), and
 several deliveries may carry the same task id (`tid`): an execution is identified by its delivery index only.
 
+Validated arguments (`val` of a task spec = the annotation kind of an extra parameter `pv`, `raw` / `by` of a message
+plan = the raw value sent for it, positionally or by keyword; `validate` of the case = the receiver's
+validate_params switch): the annotation makes pydantic build a fresh *mutable* object out of the raw value (a model
+with a mode="before" validator from "a,b" / an int / a dict, a list subclass with its own core schema from "1,2" / a
+list, a pydantic dataclass from "7;1;2" / a dict, `List[int]` / `Set[int]` / `Dict[str, int]` / a stdlib dataclass
+from a raw list / dict; `Json[List[int]]` / `Json[Dict[str, int]]` are there too - the receiver reads the hints with
+`get_type_hints`, which drops the `Annotated` metadata, so a JSON string stays a string).  Executions write
+their own mark into the object they received (`val` / `valtmp` writes: through the parameter in the task function,
+through `ctx.message.args / kwargs` in a dependency) and every echo carries the canonical form of what is held.
+
 The execution an event belongs to is carried by a ContextVar set by the harness task that calls
 `Receiver.callback` (propagated into the worker thread of sync task functions by the loop subclass) - it does
 not go through anything the properties are about."""
 import asyncio
 import contextlib
 import contextvars
+import dataclasses
 import sys
 import types
 from concurrent.futures import ThreadPoolExecutor
+from typing import Any, Dict, List, Optional, Set
+
+import pydantic
 
 import taskiq_dependencies.ctx as dctx
 import taskiq_dependencies.graph as dgraph
@@ -65,6 +79,114 @@ class UserCfg:
         self.tag = tag
 
 
+class Tags(pydantic.BaseModel):
+    """argument type with compact wire forms: "red,blue" and 7 stand for {"tags": [...]}"""
+
+    tags: List[str]
+    note: Optional[str] = None
+
+    @pydantic.model_validator(mode="before")
+    @classmethod
+    def _compact(cls, value: Any) -> Any:
+        if isinstance(value, str):
+            return {"tags": [part for part in value.split(",") if part]}
+        if isinstance(value, int) and not isinstance(value, bool):
+            return {"tags": [str(value)]}
+        return value
+
+
+@dataclasses.dataclass
+class Box:
+    n: int
+    items: List[int] = dataclasses.field(default_factory=list)
+
+
+@pydantic.dataclasses.dataclass
+class PBox:
+    """pydantic dataclass with a compact wire form: "7;1;2" stands for {"n": 7, "items": [1, 2]}"""
+
+    n: int
+    items: List[int] = dataclasses.field(default_factory=list)
+
+    @pydantic.model_validator(mode="before")
+    @classmethod
+    def _compact(cls, value: Any) -> Any:
+        if isinstance(value, str):
+            parts = [int(part) for part in value.split(";") if part]
+            return {"n": parts[0], "items": parts[1:]}
+        return value
+
+
+class IntList(list):
+    """custom type with its own core schema: built from "1,2,3" or from a list of ints"""
+
+    @classmethod
+    def __get_pydantic_core_schema__(cls, source, handler):
+        from pydantic_core import core_schema
+
+        def build(value):
+            if isinstance(value, str):
+                value = [int(part) for part in value.split(",") if part]
+            if not isinstance(value, list) or not all(type(x) is int for x in value):
+                raise ValueError("not a list of ints")
+            return cls(value)
+
+        return core_schema.no_info_plain_validator_function(build)
+
+
+# annotation kinds of the validated parameter `pv` (process-wide objects, as the types of a worker are)
+ANNS = {"jl": pydantic.Json[List[int]], "jd": pydantic.Json[Dict[str, int]], "csv": Tags, "list": List[int],
+        "set": Set[int], "dict": Dict[str, int], "dc": Box, "pdc": PBox, "ilist": IntList}
+NOPV = object()
+
+
+def mark_val(obj, e):
+    """execution e writes its own mark into the object it was given; False when the object cannot be written to"""
+    if isinstance(obj, list):
+        obj.append(-(e + 1))
+    elif isinstance(obj, set):
+        obj.add(-(e + 1))
+    elif isinstance(obj, dict):
+        obj["x%d" % e] = e
+    elif isinstance(obj, Tags):
+        obj.tags.append("x%d" % e)
+        obj.note = "x%d" % e
+    elif isinstance(obj, (Box, PBox)):
+        obj.items.append(-(e + 1))
+    else:
+        return False
+    return True
+
+
+def unmark_val(obj, e):
+    """execution e removes its own mark again (scratch use of its argument)"""
+    if isinstance(obj, list):
+        if -(e + 1) in obj:
+            obj.remove(-(e + 1))
+    elif isinstance(obj, set):
+        obj.discard(-(e + 1))
+    elif isinstance(obj, dict):
+        if obj.get("x%d" % e) == e:
+            del obj["x%d" % e]
+    elif isinstance(obj, Tags):
+        if "x%d" % e in obj.tags:
+            obj.tags.remove("x%d" % e)
+        if obj.note == "x%d" % e:
+            obj.note = None
+    elif isinstance(obj, (Box, PBox)):
+        if -(e + 1) in obj.items:
+            obj.items.remove(-(e + 1))
+
+
+def val_slot(message, plan):
+    """the validated argument as the message a Context refers to holds it"""
+    if plan.get("raw") is None:
+        return None
+    if plan.get("by", "pos") == "pos":
+        return message.args[1] if len(message.args) > 1 else None
+    return message.kwargs.get("pv")
+
+
 class Run:
     """state of one case"""
 
@@ -80,6 +202,7 @@ class Run:
         self.src = {}           # exec -> context number that computed the kwargs of the next dependency call
         self.pause_i = {}
         self.toksrc = {}        # token -> context number that computed the kwargs of that dependency call
+        self.scratch = {}       # exec -> object it marked for the time of its task function (`valtmp`)
         self.broker = None
 
     def ev(self, *a):
@@ -188,6 +311,16 @@ class Loop(vloop.VLoop):
 
 # --------------------------------------------------------------------------- helpers called by the generated bodies
 def jsonable(v):
+    if isinstance(v, Tags):
+        return {"__tags__": jsonable(v.tags), "note": jsonable(v.note)}
+    if isinstance(v, (Box, PBox)):
+        return {"__box__": jsonable(v.n), "items": jsonable(v.items)}
+    if isinstance(v, (set, frozenset)):
+        items = [jsonable(x) for x in v]
+        try:
+            return {"__set__": sorted(items)}
+        except TypeError:
+            return {"__set__": sorted(items, key=repr)}
     if isinstance(v, dict):
         return {str(k): jsonable(x) for k, x in v.items()}
     if isinstance(v, (list, tuple)):
@@ -206,15 +339,29 @@ def echo(ctx):
     return snapshot(ctx.message)
 
 
-def apply_muts(e, at, ctx, node=None):
-    """the scripted writes of execution e at this point, through the Context it was given (never through anything
-    the harness holds).  `requeue` is not handled here (it is awaited by the task body)."""
-    if ctx is None:
-        return
-    for mu in R.plan(e).get("muts") or []:
+def apply_muts(e, at, ctx, node=None, pv=NOPV):
+    """the scripted writes of execution e at this point, through the Context it was given or (task function, `val` /
+    `valtmp`) through its own parameter - never through anything the harness holds.  `requeue` is not handled here
+    (it is awaited by the task body)."""
+    plan = R.plan(e)
+    for mu in plan.get("muts") or []:
         if mu["at"] != at or mu.get("node") != node or mu["op"] == "requeue":
             continue
         op = mu["op"]
+        if op in ("val", "valtmp"):
+            # the object this execution received for its validated parameter
+            if node is None:
+                target = None if pv is NOPV else pv
+            else:
+                target = None if ctx is None else val_slot(ctx.message, plan)
+            if not mark_val(target, e):
+                continue
+            if op == "valtmp":
+                R.scratch[e] = target
+            R.ev("mut", e, op, at, node)
+            continue
+        if ctx is None:
+            continue
         if op == "setmsg":
             # the Context's message re-assigned to a private deep copy; later writes through ctx go to the copy
             ctx.message = ctx.message.model_copy(deep=True)
@@ -282,19 +429,31 @@ def wants_requeue(plan, ctx):
     return ctx is not None and any(mu["op"] == "requeue" for mu in plan.get("muts") or [])
 
 
-async def h_body(t, tok, kw, ctx, vals):
+def end_scratch(e):
+    if e in R.scratch:
+        unmark_val(R.scratch.pop(e), e)
+        R.ev("mut", e, "valtmp-undo", "end", None)
+
+
+async def h_body(t, tok, kw, ctx, vals, pv=NOPV):
     e = EXEC.get()
     plan = R.plan(e)
     payload = {"arg": tok, "kw": kw, "echo": echo(ctx), "task": t}
+    if pv is not NOPV:
+        payload["pv"] = jsonable(pv)
     R.ev("task_start", e, t, payload, vals)
-    apply_muts(e, "start", ctx)
+    apply_muts(e, "start", ctx, pv=pv)
     try:
         for d in plan.get("dur") or []:
             await asyncio.sleep(d / 1_000_000)
     except asyncio.CancelledError:
+        end_scratch(e)
         R.ev("task_end", e, "cancelled")
         raise
-    apply_muts(e, "end", ctx)
+    end_scratch(e)
+    apply_muts(e, "end", ctx, pv=pv)
+    if pv is not NOPV:
+        R.ev("pread", e, "end", jsonable(pv))
     if ctx is not None:
         R.ev("read", e, "task", 0, echo(ctx))
     if wants_requeue(plan, ctx):
@@ -312,12 +471,17 @@ async def h_body(t, tok, kw, ctx, vals):
     return h_finish(e, plan, payload)
 
 
-def h_body_sync(t, tok, kw, ctx, vals):
+def h_body_sync(t, tok, kw, ctx, vals, pv=NOPV):
     e = EXEC.get()
     payload = {"arg": tok, "kw": kw, "echo": echo(ctx), "task": t}
+    if pv is not NOPV:
+        payload["pv"] = jsonable(pv)
     R.ev("task_start", e, t, payload, vals)
-    apply_muts(e, "start", ctx)
-    apply_muts(e, "end", ctx)
+    apply_muts(e, "start", ctx, pv=pv)
+    end_scratch(e)
+    apply_muts(e, "end", ctx, pv=pv)
+    if pv is not NOPV:
+        R.ev("pread", e, "end", jsonable(pv))
     if ctx is not None:
         R.ev("read", e, "task", 0, echo(ctx))
     return h_finish(e, R.plan(e), payload)
@@ -376,6 +540,9 @@ def node_src(k, n):
 
 def task_src(t, spec):
     params = ["tok: int", "kw: int = -1"]
+    if spec.get("val"):
+        # second positional parameter: args = [tok, pv] or kwargs = {"pv": ...}
+        params.insert(1, "pv: ANN_%s = None" % spec["val"])
     if spec.get("ctx"):
         params.append("ctx: Context = TaskiqDepends()")
     vals = []
@@ -383,11 +550,12 @@ def task_src(t, spec):
         params.append("d%d=TaskiqDepends(node_%d, use_cache=%s)" % (j, child, bool(cached)))
         vals.append("d%d" % j)
     cx = "ctx" if spec.get("ctx") else "None"
+    pv = ", pv" if spec.get("val") else ""
     if spec.get("sync"):
-        return "def task_%d(%s):\n    return h_body_sync(%d, tok, kw, %s, [%s])\n" % (
-            t, ", ".join(params), t, cx, ", ".join(vals))
-    return "async def task_%d(%s):\n    return await h_body(%d, tok, kw, %s, [%s])\n" % (
-        t, ", ".join(params), t, cx, ", ".join(vals))
+        return "def task_%d(%s):\n    return h_body_sync(%d, tok, kw, %s, [%s]%s)\n" % (
+            t, ", ".join(params), t, cx, ", ".join(vals), pv)
+    return "async def task_%d(%s):\n    return await h_body(%d, tok, kw, %s, [%s]%s)\n" % (
+        t, ", ".join(params), t, cx, ", ".join(vals), pv)
 
 
 # --------------------------------------------------------------------------- recording collaborators
@@ -462,6 +630,7 @@ def _run_case(case):
     ns.update(UserCfg=UserCfg, Context=Context, TaskiqDepends=TaskiqDepends, contextlib=contextlib, h_enter=h_enter, h_fail=h_fail,
               h_pause=h_pause, h_ready=h_ready, h_close=h_close, h_closed=h_closed, h_val=h_val, h_body=h_body,
               h_body_sync=h_body_sync)
+    ns.update({"ANN_" + k: a for k, a in ANNS.items()})
     run = R
 
     def this_run_only(fn):
@@ -474,7 +643,8 @@ def _run_case(case):
     ns.update(h_close=this_run_only(h_close), h_closed=this_run_only(h_closed))
     for k, n in enumerate(case["nodes"]):
         exec(node_src(k, n), ns)
-    broker = InMemoryBroker(propagate_exceptions=bool(case.get("propagate", True)))
+    validate = bool(case.get("validate", True))
+    broker = InMemoryBroker(propagate_exceptions=bool(case.get("propagate", True)), cast_types=validate)
     broker.result_backend = RecBackend()
     if case.get("middleware", True):
         broker.add_middlewares(RecMiddleware())
@@ -493,7 +663,7 @@ def _run_case(case):
     if case.get("via_inmemory") and ack == "when_saved":
         receiver = broker.receiver          # the receiver InMemoryBroker builds itself (propagate flag plumbed by it)
     else:
-        receiver = Receiver(broker=broker, executor=broker.executor, validate_params=True, max_async_tasks=None,
+        receiver = Receiver(broker=broker, executor=broker.executor, validate_params=validate, max_async_tasks=None,
                             propagate_exceptions=bool(case.get("propagate", True)), run_startup=False,
                             ack_type=ACK[ack])
     async def rec_kick(message):
@@ -510,8 +680,16 @@ def _run_case(case):
         labels = {} if m.get("nolabels") else {"who": c}
         if m.get("timeout") is not None and not m.get("nolabels"):
             labels["timeout"] = m["timeout"] / 1_000_000
-        msg = TaskiqMessage(task_id="m%d" % m.get("tid", i), task_name="task_%d" % m["task"], labels=labels, args=[c],
-                            kwargs={"kw": c} if m.get("kw", True) else {})
+        args, kwargs = [c], ({"kw": c} if m.get("kw", True) else {})
+        if m.get("raw") is not None and case["tasks"][m["task"]].get("val"):
+            # the raw value of the validated parameter, exactly as generated (equal raw values on several messages
+            # are frequent), second positional argument or keyword argument
+            if m.get("by", "pos") == "pos":
+                args.append(m["raw"])
+            else:
+                kwargs["pv"] = m["raw"]
+        msg = TaskiqMessage(task_id="m%d" % m.get("tid", i), task_name="task_%d" % m["task"], labels=labels, args=args,
+                            kwargs=kwargs)
         data = broker.formatter.dumps(msg).message
         datas.append(sent.setdefault(data, data))
 
